@@ -1,6 +1,7 @@
 (* C13 property theorems. Only statements closed by [exact lemma] and Print Assumptions. *)
 From V Require Import Common.Base C13.KwSpec C13.KwProofs gen.KeywordsGen.
 From V Require Import C13.Token C13.LexSpec C13.Toks C13.TokenProofs C13.RenderLex.
+From V Require Import C13.ParseSpec C13.PrintParse C13.PrintParse2 C13.PrintNorm.
 
 (* the keyword table of the lexer (regenerated from the source by T6) is exactly the
    ECMA-262 reserved-word list minus the two contextually reserved words await/yield *)
@@ -40,3 +41,27 @@ Theorem render_creates_no_comment : forall mw items,
   Forall item_ok items -> chain None items = true -> lex (render mw st0 items) <> None.
 Proof. exact render_no_comment_all. Qed.
 Print Assumptions render_creates_no_comment.
+
+(* the binding levels of js_ast.OpTable (tied to the source by the correspondence run) are the
+   strata of the ECMA-262 expression grammar as written down independently in ParseSpec.v *)
+Theorem op_levels_match_grammar : forall o, spec_level o = op_level o.
+Proof. exact spec_level_is_op_level. Qed.
+Print Assumptions op_levels_match_grammar.
+
+(* tree level, tokens: for every well-formed expression tree of the fragment (identifiers,
+   integers, regexps, member access, all 11 unary/update and 42 binary/assignment/comma operators)
+   the tokens of what printExpr prints (parentheses chosen by level, the "**" and "??" operand
+   rules) are parsed by the independent ECMA-262 precedence-climbing parser back to the tree,
+   up to norm (left-nesting of comma chains, which the printer prints without parentheses) *)
+Theorem print_parse_tokens : forall e, wf e ->
+  exists n, forall m, (n <= m)%nat -> parse_fuel m (toks (print_items LLowest e)) = Some (norm e).
+Proof. exact parse_print_items_all. Qed.
+Print Assumptions print_parse_tokens.
+
+(* norm is invisible to the printer (so it only re-associates what is printed identically) and idempotent *)
+Theorem norm_prints_the_same : forall e P, print_items P (norm e) = print_items P e.
+Proof. exact print_norm. Qed.
+Print Assumptions norm_prints_the_same.
+Theorem norm_idempotent : forall e, norm (norm e) = norm e.
+Proof. exact norm_idem. Qed.
+Print Assumptions norm_idempotent.
